@@ -74,8 +74,8 @@ func merkleReplay(r *Run, kc *ref.BN128Consts, width, nsib int, seed int64) stri
 		bits[i] = new(big.Int).And(rnd("bit", i, P), big.NewInt(1))
 		bref[i] = rb.Const(bits[i])
 	}
-	capIdx := int(rnd("cap", 0, P).Uint64() % 16)
 	root := ref.Eval(rb.MerkleFold(rb.BNPermConcrete(kc), lref, bref, sref), nil, map[*ref.N]*big.Int{})
+	capIdx := 0
 	mk := func(mut string) (*merkleCircuit, *merkleCircuit) {
 		w := &merkleCircuit{}
 		for _, v := range leaf {
@@ -107,20 +107,25 @@ func merkleReplay(r *Run, kc *ref.BN128Consts, width, nsib int, seed int64) stri
 		c := &merkleCircuit{Leaf: make([]frontend.Variable, width), Bits: make([]frontend.Variable, nsib), CapBits: make([]frontend.Variable, 4), Cap: make([]frontend.Variable, 16), Siblings: make([]frontend.Variable, nsib)}
 		return c, w
 	}
-	for _, mut := range []string{"", "wrong-slot", "flip-bit", "leaf+1"} {
-		c, w := mk(mut)
-		var err error
-		pm := catchPanic(func() { quiet(func() { err = test.IsSolved(c, w, R) }) })
-		forgetChips()
-		if pm != "" {
-			return ""
-		}
-		accepted := err == nil
-		if mut == "" && !accepted {
-			return fmt.Sprintf("an honest opening (leaf width %d, %d siblings, cap slot %d) is rejected: %s", width, nsib, capIdx, short(err.Error(), 120))
-		}
-		if mut != "" && accepted {
-			return fmt.Sprintf("a corrupted opening (%s; leaf width %d, %d siblings, cap slot %d) is accepted", mut, width, nsib, capIdx)
+	// every cap slot in turn (a lookup that leaves some slots unbacked shows only there)
+	first := int(rnd("cap", 0, P).Uint64() % 16)
+	for k := 0; k < 16; k++ {
+		capIdx = (first + k) % 16
+		for _, mut := range []string{"", "wrong-slot", "flip-bit", "leaf+1"} {
+			c, w := mk(mut)
+			var err error
+			pm := catchPanic(func() { quiet(func() { err = test.IsSolved(c, w, R) }) })
+			forgetChips()
+			if pm != "" {
+				return ""
+			}
+			accepted := err == nil
+			if mut == "" && !accepted {
+				return fmt.Sprintf("an honest opening (leaf width %d, %d siblings, cap slot %d) is rejected: %s", width, nsib, capIdx, short(err.Error(), 120))
+			}
+			if mut != "" && accepted {
+				return fmt.Sprintf("a corrupted opening (%s; leaf width %d, %d siblings, cap slot %d) is accepted", mut, width, nsib, capIdx)
+			}
 		}
 	}
 	return ""
